@@ -168,6 +168,12 @@ class CursorInterp:
 
     def for_loop(self, s, state, env):
         it = self._generator_alias(self._unwrap_iter(s.iter), env)
+        if isinstance(it, ast.Call) and (call_name(it) or "").split(".")[-1] in ("zip", "zip_longest", "izip"):
+            # zip(other, gen(...)): the rounds of the loop are the rounds of the one package generator among the arguments
+            cands = [self._generator_alias(self._unwrap_iter(a), env) for a in it.args]
+            gs = [c for c in cands if isinstance(c, ast.Call) and any(t.is_generator for t, _c in self.resolve(c, env))]
+            if len(gs) == 1:
+                it = gs[0]
         gens, nongens = [], []
         if isinstance(it, ast.Call):
             targets = self.resolve(it, env)
